@@ -591,6 +591,9 @@ def run(chk):
     adaptive_reject_rule(chk, src, "adaptive-reject")
     chk.rule("config-restore", "temporarily modified configuration objects are saved as copies before and restored after", 1)
     config_restore_rule(chk, src, "config-restore")
+    chk.rule("overlap-kernel", "transferMat (overlap matrices of the tangent-space equations) is the canonical <bra|ket> transfer step in both directions and ranks", 4)
+    from .C07 import transfer_cases
+    add_cases(chk, "overlap-kernel", transfer_cases(src), "overlap matrix kernel")
     chk.rule("step-doubling", "abstract run of the adaptive TDVP wrapper with scripted error estimates", 3)
     step_doubling_rule(chk, src, "step-doubling")
     chk.rule("relative-error-homogeneous", "adaptive error estimates divide norms of the same kind (both with or both without the scalar prefactor)", 3)
